@@ -249,12 +249,15 @@ func (c *Cron) PendingCount() int {
 func (c *Cron) command(ctx *core.Context, command string) error {
 	core.Log(core.INFO|CRON, ctx, "Cron.command", "command", command, "name", c.Name)
 	c.Lock()
-	if c.control == nil {
-		c.Unlock()
+	control := c.control
+	c.Unlock()
+	if control == nil {
 		return fmt.Errorf("Not started")
 	}
-	c.control <- command
-	c.Unlock()
+	// Send without the lock.  The channel is buffered, but when it is
+	// full (a few commands in a row while the loop pauses) the send
+	// waits for the loop, and the loop needs the lock to go on.
+	control <- command
 	return nil
 }
 
